@@ -91,6 +91,12 @@ func doNerr(id string, x *sexp) (out string) {
 			cause = errors.New(causeText)
 		}
 	}
+	// causes of unusual Go types, same text: a slice-typed error (not comparable, not hashable), an error with its own Format method
+	if strings.HasSuffix(causeText, " (slice)") {
+		cause = sliceErr{causeText}
+	} else if strings.HasSuffix(causeText, " (formatter)") {
+		cause = fmtErr{causeText}
+	}
 	var layers []*parser.NestedError
 	var cur error = cause
 	for _, m := range x.list[3].list {
@@ -120,7 +126,7 @@ func doNerr(id string, x *sexp) (out string) {
 			outs = append(outs, "t"+hexOf(layers[k].Error()))
 		case "orig":
 			o := layers[k].Original()
-			if o != cause {
+			if !sameError(o, cause) {
 				outs = append(outs, "oDIFF")
 			} else {
 				outs = append(outs, "o"+hexOf(o.Error()))
@@ -184,4 +190,25 @@ func doNerr(id string, x *sexp) (out string) {
 		}
 	}
 	return id + " out=" + strings.Join(outs, ";") + " oracle=" + oracle
+}
+
+type sliceErr []string
+
+func (s sliceErr) Error() string { return strings.Join(s, "") }
+
+// fmtErr prints differently through fmt verbs than through Error()
+type fmtErr struct{ text string }
+
+func (f fmtErr) Error() string { return f.text }
+func (f fmtErr) Format(st fmt.State, verb rune) {
+	fmt.Fprintf(st, "FORMATTED<%c>(%s)", verb, f.text)
+}
+
+func sameError(a, b error) bool {
+	sa, oka := a.(sliceErr)
+	sb, okb := b.(sliceErr)
+	if oka || okb {
+		return oka && okb && len(sa) == len(sb) && (len(sa) == 0 || &sa[0] == &sb[0])
+	}
+	return a == b
 }
